@@ -553,7 +553,8 @@ fn run_case(target: &str, seed: u64, len: usize) -> (String, String) {
             use dasp_signal::bus::SignalBus;
             // pseudo-random sequences of send / next(output i) / drop(output i) against an ideal model:
             // model = positions of each live output in the common history, pulled = frames pulled so far
-            let data: Vec<F2> = (0..64).map(|i| [i as i16 + 1, -(i as i16) - 1]).collect();
+            let dlen = if seed % 2 == 0 { 64 } else { 2 + (seed % 5) as usize };      // short sources reach exhaustion
+            let data: Vec<F2> = (0..dlen).map(|i| [i as i16 + 1, -(i as i16) - 1]).collect();
             let (sa, ca) = src(data.clone());
             let bus = sa.bus();
             let mut outs: Vec<Option<dasp_signal::bus::Output<Src<F2>>>> = vec![];
@@ -578,7 +579,7 @@ fn run_case(target: &str, seed: u64, len: usize) -> (String, String) {
                     if pos[i] > pulled { pulled = pos[i]; }
                     rec!(ca.get(), pulled);          // the source is pulled once per distinct frame
                 }
-                for (i, o) in outs.iter().enumerate() { if let Some(o) = o { rec!(o.pending_frames(), pulled - pos[i]); } }
+                for (i, o) in outs.iter().enumerate() { if let Some(o) = o { rec!(o.pending_frames(), pulled - pos[i]); rec!(o.is_exhausted(), pulled - pos[i] == 0 && pulled >= data.len()); } }
             }
             // backlog retention: once every live output has caught up and they are pulled in step, the backlog stays
             // empty, so the bus performs no further heap operation (observed with the counting allocator)
